@@ -316,7 +316,7 @@ func runC20(c *an.Ctx) {
 				}
 			}
 			if start == nil {
-				c.Bad("R3", "Close records the error of "+callee+" @"+c.P.Position(er.Call.Pos()), er.Call.Pos(), "no branch on the error")
+				c.Bad("R3", fmt.Sprintf("Close records the error of %s #%d", callee, n), er.Call.Pos(), "no branch on the error")
 				continue
 			}
 			has := false
